@@ -345,7 +345,7 @@ fn groups(g: &mut Groups) {
     g.prop("twin", 12_000, 600_000, || case(), check_case);
     g.prop("cli", 800, 20_000, || case(), check_cli);
     // The same route with the command line parsed in this process (hook `__verif::cli`).
-    g.prop("cli_inproc", 8_000, 400_000, || case(), |c| twin::with_cli_in_process(|| check_cli(c)));
+    g.prop("cli_inproc", 16_000, 400_000, || case(), |c| twin::with_cli_in_process(|| check_cli(c)));
     let word = || prop_oneof![Just("a".to_string()), Just("b".to_string()), Just("ab".to_string()), Just("c::a".to_string()), Just("c::ab::1".to_string()), Just("x".to_string()), "[abc:]{0,6}"];
     g.prop(
         "filter_set",
